@@ -140,13 +140,13 @@ def generate(unit):
         while i < len(lines) and not lines[i].lstrip().startswith('//@end'):
             r = lines[i].strip()
             if r.startswith('//@rewrite '):
-                mo = re.match(r'//@rewrite s/(.*)/(.*)/ count=(\d+) reason=(.*)$', r)
+                mo = re.match(r'//@rewrite s/(.*)/(.*)/ count=(\d+|\*) reason=(.*)$', r)
                 if not mo:
                     raise UnitProblem('bad rewrite line: %s' % r)
-                pat, rep, cnt, reason = mo.group(1), mo.group(2), int(mo.group(3)), mo.group(4)
+                pat, rep, cnt, reason = mo.group(1), mo.group(2), mo.group(3), mo.group(4)
                 chunk, n = re.subn(pat, rep.replace('\\n', '\n'), chunk, flags=re.S)
-                if n != cnt:
-                    raise UnitProblem('rewrite %r fired %d times, expected %d (in %s %s)' % (pat, n, cnt, rel, kv['item']))
+                if cnt != '*' and n != int(cnt):
+                    raise UnitProblem('rewrite %r fired %d times, expected %s (in %s %s)' % (pat, n, cnt, rel, kv['item']))
                 rewrites.append(dict(unit=unit['name'], item=kv['item'], regex=pat, replacement=rep, fired=n, reason=reason))
             elif r and not r.startswith('//'):
                 raise UnitProblem('unexpected line inside extract block: %s' % r)
@@ -167,36 +167,38 @@ FN_RE = re.compile(r'^[ \t]*((?:pub(?:\([a-z]+\))?\s+)?(?:open\s+|closed\s+)?(?:
 
 
 def list_functions(gen_path):
-    """[(name, kind, start_line, end_line, external)] for every fn with a body in the generated file"""
-    src = rustx.Src(gen_path)
+    """[(name, kind, start_line, end_line, external)] for every fn with a body in the generated file.
+    The end of a function is the first later line consisting of `}` at the indentation of its `fn` line (the ensures
+    clauses may contain braces, so brace matching from the signature is not reliable)."""
+    txt = open(gen_path).read()
+    lines = txt.split('\n')
     res = []
-    for mo in FN_RE.finditer(src.text):
-        if not src.mask[mo.start(2)]:
+    for idx, ln in enumerate(lines):
+        mo = re.match(r'^([ \t]*)((?:pub(?:\([a-z]+\))?\s+)?(?:open\s+|closed\s+)?(?:(?:proof|spec|exec)\s+)?(?:const\s+)?fn)\s+(\w+)', ln)
+        if not mo:
             continue
-        head = mo.group(1)
+        indent, head, name = mo.group(1), mo.group(2), mo.group(3)
         kind = 'spec' if 'spec' in head else ('proof' if 'proof' in head else 'exec')
-        # find body or ';'
-        j = mo.end()
-        t, m = src.text, src.mask
-        body = None
-        while j < len(t):
-            if m[j]:
-                if t[j] == '{':
-                    body = (j, src.match_close(j))
+        end = None
+        one_line = ln.rstrip().endswith('}') and '{' in ln
+        if one_line:
+            end = idx
+        else:
+            for j in range(idx + 1, len(lines)):
+                if lines[j].rstrip() == indent + '}' or (lines[j].startswith(indent + '{ ') and lines[j].rstrip().endswith('}')):
+                    end = j
                     break
-                if t[j] in '([':
-                    j = src.match_close(j)
-                elif t[j] == ';':
+                if lines[j].rstrip() == indent + ';':
                     break
-            j += 1
-        if not body:
+        if end is None:
             continue
-        start_line = t.count('\n', 0, mo.start()) + 1
-        end_line = t.count('\n', 0, body[1]) + 1
-        pre = t[max(0, mo.start() - 300):mo.start()]
-        attrs = re.findall(r'#\[verifier::(\w+)', pre.split('}')[-1])
+        k = idx - 1
+        attrs = []
+        while k >= 0 and (lines[k].strip().startswith('#[') or lines[k].strip().startswith('///')):
+            attrs += re.findall(r'#\[verifier::(\w+)', lines[k])
+            k -= 1
         external = any(a in ('external_body', 'external') for a in attrs)
-        res.append(dict(name=mo.group(2), kind=kind, start=start_line, end=end_line, external=external))
+        res.append(dict(name=name, kind=kind, start=idx + 1, end=end + 1, external=external))
     return res
 
 
@@ -281,8 +283,17 @@ def run_units(units, tier):
                 unmapped.append(e['msg'])
         if 'rlimit' in p.stderr or 'Resource limit' in p.stderr:
             res['problems'].append('verus resource limit (rlimit) exceeded')
+        hard_fail = False
         if unmapped:
             res['problems'].append('verus errors outside any function: %s' % '; '.join(unmapped[:3]))
+            hard_fail = True
+        if vr.get('verified', 0) == 0 and not failed:
+            res['problems'].append('verus verified nothing')
+            hard_fail = True
+        if hard_fail:
+            res['stderr'] = p.stderr[-3000:]
+            results.append(res)
+            continue
         n_ob = 0
         for f in fns:
             if f['kind'] == 'spec' or f['external'] or f['name'] == 'main':
